@@ -101,6 +101,7 @@ def run(chk):
                        "pcap_read_all on a corrupted file may return the complete records read so far or an error object",
                        "a negative count for pcap_read_all is not generated"]
     chk.floor = 1500
+    chk.rule += '; plus a re-read of every written file by the interpreter itself, captures of 150-700 small records, the same truncations as a stream on stdin (pcap_read_next, pcap_read_all, filter mode), complete streams copied stdin -> stdout with records larger than the stdout buffer holding line-feed bytes, wire lengths below the captured length'
     work = core.scratch_dir()
     try:
         cases = []
